@@ -72,9 +72,11 @@ fn labels(c: &Case, obs: &mut Obs) {
 }
 
 /// helper table of the property statement
-pub fn check_helpers(rc: u32) -> Result<(), Fail> {
-    let mk = || LdapResult { rc, matched: "m".into(), text: "t".into(), refs: vec!["r".into()], ctrls: vec![] };
-    let same = |r: &LdapResult| r.rc == rc && r.matched == "m" && r.text == "t" && r.refs == vec!["r".to_string()];
+pub fn check_helpers(base: &LdapResult) -> Result<(), Fail> {
+    // the helpers are judged on the result as decoded (its own referral list, strings), not on a fixed shape
+    let rc = base.rc;
+    let mk = || LdapResult { rc, matched: base.matched.clone(), text: base.text.clone(), refs: base.refs.clone(), ctrls: vec![] };
+    let same = |r: &LdapResult| r.rc == rc && r.matched == base.matched && r.text == base.text && r.refs == base.refs;
     let err_same = |e: &LdapError| matches!(e, LdapError::LdapResult { result } if same(result));
     match mk().success() {
         Ok(r) => ensure!(rc == 0 && same(&r), "c03:helper-success", "success() accepted rc {}", rc),
@@ -135,7 +137,7 @@ pub fn check_direct(c: &Case, obs: &mut Obs) -> Result<(), Fail> {
     compare_res(&got, res)?;
     let empty = vec![];
     compare_resp_controls(&ctrls, c.ctrls.as_ref().unwrap_or(&empty)).map_err(|f| Fail::new(format!("c03:ctrls/{}", f.sig), f.msg))?;
-    check_helpers(res.rc)?;
+    check_helpers(&got)?;
     labels(c, obs);
     if nontrivial(c) {
         obs.nontrivial(format!("{:?}", c));
